@@ -23,7 +23,9 @@ SPEC = dict(
     bounded=[dict(name='C20-bounded', script='bounded/C20.py')],
     replay_finder='bounded/C20.py',
     explanation='equality / strip / copy proved on the record model; round trips bounded',
-    proved_clauses=['== is True exactly when every listed field is equal as a multiset (order-insensitive, sensitive to every field)',
+    proved_clauses=['create_annotation: every field of the new annotation is the normalised input of that name; lemma: an annotation rebuilt from the fields of '
+                    'another (already normal) annotation is EQUAL to it (the step from the field dictionary dict() to the keyword arguments is bounded)',
+                    '== is True exactly when every listed field is equal as a multiset (order-insensitive, sensitive to every field)',
                     'reflexive / symmetric / transitive (lemmas over the contract)', 'strip removes every modification and nothing else (both modes)',
                     'copy returns an equal value'],
     bounded_clauses=['string and dictionary round trips', 'copy independent (no shared mutable field)', 'element-level equality of Mod / Interval (value, multiplier, bounds, ambiguity)'],
